@@ -144,11 +144,31 @@ where
     }
 
     fn collect_item_keys(&self) -> HashMap<ast::ItemKey, ast::ResolvedItemKind> {
+        // Note: if several files define the same key, keep the kind which comes first in
+        // the order interface, parcelable, enum (not the last one in hash order)
+        fn rank(kind: &ast::ResolvedItemKind) -> u8 {
+            match kind {
+                ast::ResolvedItemKind::Interface => 0,
+                ast::ResolvedItemKind::Parcelable => 1,
+                ast::ResolvedItemKind::Enum => 2,
+                ast::ResolvedItemKind::ForwardDeclaredParcelable => 3,
+                ast::ResolvedItemKind::UnknownImport => 4,
+            }
+        }
+
         self.lalrpop_results
             .values()
             .flat_map(|fr| &fr.ast)
             .map(|f| (f.get_key(), f.item.get_kind()))
-            .collect()
+            .fold(HashMap::new(), |mut map, (key, kind)| {
+                match map.get(&key) {
+                    Some(previous) if rank(previous) <= rank(&kind) => (),
+                    _ => {
+                        map.insert(key, kind);
+                    }
+                }
+                map
+            })
     }
 }
 
